@@ -120,7 +120,10 @@ def atlas_body_docs():
         "/json/charset": {"post": op("json_charset", body={"content": {"application/json; charset=utf-8": {"schema": {"$ref": REF + "Item"}}}})},
     }
     upload = obj({"title": {"type": "string"}, "count": {"type": "integer"}, "flag": {"type": "boolean"}, "when": {"type": "string", "format": "date"},
-                  "kind": {"$ref": REF + "Color"}, "tags": arr({"type": "string"}), "meta": {"$ref": REF + "Other"}, "ratio": {"type": "number"}}, required=["title", "count"])
+                  "kind": {"$ref": REF + "Color"}, "tags": arr({"type": "string"}), "meta": {"$ref": REF + "Other"}, "ratio": {"type": "number"},
+                  "ref_or_text": {"oneOf": [{"type": "integer"}, {"type": "string"}]}, "maybe_note": any_of({"type": "string"}, NULL),
+                  "stamp": {"type": "string", "format": "date-time"}, "uid": {"type": "string", "format": "uuid"}, "lvl": any_of({"$ref": REF + "Level"}, NULL)},
+                 required=["title", "count"])
     return [("bodies", doc(paths, schemas={"Upload": upload}))]
 
 
